@@ -153,6 +153,100 @@ var grantBasis = []P{
 	{"read", "buckets", "org1", "b1"}, {"write", "buckets", "org1", ""}, {"read", "orgs", "", "org1"},
 }
 
+// family D: the two permissions that open the gates in front of the list verification of CreateAuthorization for a
+// token of org1 / user u1 (create authorizations in org1, write user u1); both are members of the basis.
+var enabling = []P{{"write", "authorizations", "org1", ""}, {"write", "users", "", "u1"}}
+
+func basisIndex(p P) int {
+	for i, b := range basis {
+		if b == p {
+			return i
+		}
+	}
+	panic("not in basis: " + p.String())
+}
+
+// listsOfLen returns every ORDERED list of exactly n entries over alpha (entries may repeat).
+func listsOfLen(alpha []P, n int) [][]P {
+	out := [][]P{{}}
+	for d := 0; d < n; d++ {
+		var next [][]P
+		for _, l := range out {
+			for _, p := range alpha {
+				next = append(next, append(append([]P{}, l...), p))
+			}
+		}
+		out = next
+	}
+	return out
+}
+
+// listShape classifies a requested permission list: "sameRes" = two entries name the same resource (type, org, id)
+// with different actions, "dup" = two entries are identical.
+func listShape(l []P) string {
+	same, dup := false, false
+	for i := range l {
+		for j := i + 1; j < len(l); j++ {
+			if l[i] == l[j] {
+				dup = true
+			} else if l[i].T == l[j].T && l[i].Org == l[j].Org && l[i].ID == l[j].ID {
+				same = true
+			}
+		}
+	}
+	switch {
+	case same && dup:
+		return "sameRes+dup"
+	case same:
+		return "sameRes"
+	case dup:
+		return "dup"
+	}
+	return "distinct"
+}
+
+// callerSetsD: for every held set H of hs the callers H and H + enabling, in canonical (basis) order, without repeats.
+func callerSetsD(hs [][]P) [][]P {
+	var out [][]P
+	seen := map[string]bool{}
+	add := func(ps []P) {
+		in := map[int]bool{}
+		for _, p := range ps {
+			in[basisIndex(p)] = true
+		}
+		var c []P
+		for i, b := range basis {
+			if in[i] {
+				c = append(c, b)
+			}
+		}
+		if k := fmt.Sprint(c); !seen[k] {
+			seen[k] = true
+			out = append(out, c)
+		}
+	}
+	for _, h := range hs {
+		add(h)
+		add(append(append([]P{}, h...), enabling...))
+	}
+	return out
+}
+
+// isGrantSublist: the list is a sublist of grantBasis in its order, i.e. the same request as a family A createToken call.
+func isGrantSublist(l []P) bool {
+	next := 0
+	for _, p := range l {
+		found := false
+		for ; next < len(grantBasis) && !found; next++ {
+			found = grantBasis[next] == p
+		}
+		if !found {
+			return false
+		}
+	}
+	return true
+}
+
 // ---------------------------------------------------------------------------------------------------------------
 // calls
 
@@ -161,6 +255,7 @@ type Op struct {
 	K string `json:"k"`           // method
 	X string `json:"x,omitempty"` // target / argument (fixture name, "nb" = the bucket created by createBucket, ...)
 	G []int  `json:"g,omitempty"` // createToken: indexes into grantBasis
+	L []P    `json:"l,omitempty"` // createTokenL (family D): the requested permission list itself, in order
 	F *Filt  `json:"f,omitempty"` // find calls of family C: the whole filter, field by field (X is unused then)
 }
 
@@ -201,6 +296,9 @@ func (o Op) String() string {
 			g = append(g, grantBasis[i].String())
 		}
 		s += "[" + strings.Join(g, ",") + "]"
+	}
+	if o.K == "createTokenL" {
+		s += fmt.Sprint(o.L)
 	}
 	return s
 }
@@ -740,7 +838,8 @@ func (w *world) run(via string, perms []P, o Op) callResult {
 	}
 
 	var err error
-	permitted, hasVerdict := false, false // for mutations: does the reference permit it (hasVerdict=false: no target, nothing to say)
+	permitted, hasVerdict := false, false                // for mutations: does the reference permit it (hasVerdict=false: no target, nothing to say)
+	mayCreate, gatesOpen, firstUnheld := false, false, 0 // token create: org gate, org + user gate, 1-based position of the first requested entry the caller does not hold
 	arg := o.X
 	strp := func(s string) *string { return &s }
 	idp := func(v uint64) *platform.ID { i := pid(v); return &i }
@@ -909,14 +1008,27 @@ func (w *world) run(via string, perms []P, o Op) callResult {
 			} else {
 				err = svc.usr.DeleteUser(ctx, pid(id))
 			}
-		case "createToken":
+		case "createToken", "createTokenL":
 			on, un, _ := strings.Cut(arg, "/")
 			a := &influxdb.Authorization{Token: "tok-new", OrgID: pid(nameID[on]), UserID: pid(nameID[un]), Permissions: []influxdb.Permission{}}
-			permitted = allowed(set, req{"write", "authorizations", nameID[on], 0})
-			for _, gi := range o.G {
-				g := grantBasis[gi]
+			mayCreate = allowed(set, req{"write", "authorizations", nameID[on], 0})
+			gatesOpen = mayCreate && allowed(set, req{"write", "users", 0, nameID[un]})
+			permitted = mayCreate
+			list := o.L
+			if o.K == "createToken" {
+				list = nil
+				for _, gi := range o.G {
+					list = append(list, grantBasis[gi])
+				}
+			}
+			for i, g := range list {
 				a.Permissions = append(a.Permissions, g.perm())
-				permitted = permitted && allowed(set, g.req()) // the caller must already hold every permission being granted
+				if !allowed(set, g.req()) { // the caller must already hold EVERY permission being granted, wherever it stands in the list
+					permitted = false
+					if firstUnheld == 0 {
+						firstUnheld = i + 1
+					}
+				}
 			}
 			hasVerdict = true
 			err = svc.tok.CreateAuthorization(ctx, a)
@@ -954,18 +1066,29 @@ func (w *world) run(via string, perms []P, o Op) callResult {
 	if denied && changed {
 		add("denied-call-changed-state/"+o.K, "the call was denied (%v) but the stored state changed in %v", err, changedBuckets)
 	}
+	listTag := "" // family D: features of the requested list
+	if o.K == "createTokenL" {
+		gates := "closed"
+		if gatesOpen {
+			gates = "open"
+			res.relevant = true // the list verification is reached: the verdict depends on the entries of the list
+		}
+		listTag = fmt.Sprintf("/gates=%s/len=%d/shape=%s", gates, len(o.L), listShape(o.L))
+	}
 	if isMutation(o) {
 		switch {
 		case !hasVerdict:
 			res.class = fmt.Sprintf("%s:%s/no-target", o.K, outcome)
 		case permitted:
 			res.relevant = true
-			res.class = fmt.Sprintf("%s:%s/permitted", o.K, outcome)
+			res.class = fmt.Sprintf("%s:%s/permitted", o.K, outcome) + listTag
 		default:
-			res.class = fmt.Sprintf("%s:%s/not-permitted", o.K, outcome)
+			res.class = fmt.Sprintf("%s:%s/not-permitted", o.K, outcome) + listTag
 			grantTag := ""
 			if o.K == "createToken" {
-				grantTag = fmt.Sprintf("/mayCreateInOrg=%v", allowed(set, req{"write", "authorizations", nameID[strings.Split(arg, "/")[0]], 0}))
+				grantTag = fmt.Sprintf("/mayCreateInOrg=%v", mayCreate)
+			} else if o.K == "createTokenL" {
+				grantTag = fmt.Sprintf("/mayCreateInOrg=%v/len=%d/shape=%s/firstUnheld=%d", mayCreate, len(o.L), listShape(o.L), firstUnheld)
 			}
 			if err == nil {
 				add("write-without-permission/"+o.K+grantTag, "the call succeeded although the caller may not write the target (state changed: %v)", changed)
@@ -1063,14 +1186,21 @@ func TestCheck(t *testing.T) {
 			"{buckets of org1, bucket b1, org2} x every sequence of <= 2 (thorough: <= 3) calls of a 23-call alphabet. Family C (filter products): every single find-by-filter call with EVERY combination of its filter fields " +
 			"over the fixture's entities, each field absent or naming any entity, so the fields of one filter may point at different organizations/users/resources: FindBucket(s) ID{b1,b2,b3,_tasks} x Name{b1,b2,b3,_tasks} x OrganizationID{org1,org2} x Org{org1,org2} " +
 			"(2 x 225 filters), FindOrganization(s) ID x Name x UserID (2 x 27), FindUser(s) ID x Name (2 x 9), FindAuthorizations ID{t1,t2,t3} x Token x UserID x User x OrgID x Org (1296) x every caller set of size <= 1 of the 23-permission basis; " +
-			"the bucket/org/user filters additionally x every pair of the 12 read permissions of the basis (thorough: all filters x every set of size <= 2 of the basis). Oracle = the C28 rule transcribed, applied to the raw kv content: every returned resource must be readable, " +
-			"a mutation the caller may not perform on its target (for token create: may not create in the org or does not hold a granted permission) must fail, and after a denied (unauthorized/forbidden) or unpermitted " +
-			"call the dump of the whole kv store is byte-identical; non-trivial = cases in which the reference allows at least one call (a resource is returned or a mutation is permitted); cases are distinct by construction",
+			"the bucket/org/user filters additionally x every pair of the 12 read permissions of the basis (thorough: all filters x every set of size <= 2 of the basis). " +
+			"Family D (requested permission lists): CreateAuthorization of a token of org1/u1 through both wrappers with EVERY ORDERED list of <= 2 requested permissions over the 23-permission basis (1+23+529 lists; entries may repeat, " +
+			"so every list naming one resource (same type/org/id) twice with different actions, in both orders, and every plain duplicate is inside) x callers H and H + {write authorizations of org1, write user u1} (the two permissions " +
+			"that open the gates in front of the list verification) for every held set H of family A (size <= 2, thorough <= 3) and of family B (64 subsets) = 592 (thorough 3632) caller sets; thorough adds every ordered list of exactly 3 entries " +
+			"(12167) x the same construction over the held sets of size <= 1 and the 64 core subsets (160 caller sets); requests identical to a family A call are skipped. Oracle = the C28 rule transcribed, applied to the raw kv content: every returned resource must be readable, " +
+			"a mutation the caller may not perform on its target (for token create: may not create in the org or does not hold EVERY entry of the requested permission list, whatever its position and whatever else the list repeats) must fail, and after a denied (unauthorized/forbidden) or unpermitted " +
+			"call the dump of the whole kv store is byte-identical; non-trivial = cases in which the reference allows at least one call (a resource is returned or a mutation is permitted) or, in family D, the caller may create tokens in the org and write the token's user, " +
+			"so that the verdict is decided by the entries of the requested list; cases are distinct by construction",
 		Assumptions: []string{
 			"'may read' for a system bucket is taken as: bucket read permission OR read permission on its organization (the statement does not single system buckets out)",
 			"resources returned by successful update calls are not counted as reads; completeness of find results (returning everything readable) is not part of the statement and not demanded",
 			"the caller is an active token of user u1; the reference never calls influxdb.Permission.Matches / PermissionSet.Allowed",
 			"a TaskService without tasks is attached so that organization delete can finish; in-memory kv transactions do not roll back",
+			"family D requests entries the token service itself may reject after the wrapper let them through (permissions scoped to org2 in a token of org1, the instance type): a permitted call may fail, only an unpermitted one may not succeed; " +
+				"the write-user gate of CreateAuthorization is not in the statement and is used for the non-trivial count and the outcome classes only, never for the verdict",
 		},
 		Run: func(c *vlib.Ctx) {
 			w := newWorld()
@@ -1111,6 +1241,33 @@ func TestCheck(t *testing.T) {
 						return
 					}
 				}
+			}
+			// family D: token create with every ORDERED list of requested permissions over the 23-permission basis
+			// (entries may repeat, so lists naming one resource twice with different actions, in both orders, and
+			// plain duplicates are all inside) x the held sets of families A and B, each as it is and together with
+			// the two gate-opening permissions. Requests that family A already made (same caller, list = a
+			// sublist of grantBasis in its order) are skipped.
+			familyD := func(held [][]P, lists [][]P, what string) bool {
+				for _, via := range vias {
+					for _, ps := range callerSetsD(held) {
+						for _, l := range lists {
+							if len(ps) <= kA && isGrantSublist(l) {
+								continue
+							}
+							do(Case{via, ps, []Op{{K: "createTokenL", X: "org1/u1", L: l}}})
+						}
+						if c.Expired() {
+							c.Cap(what)
+							return false
+						}
+					}
+				}
+				return true
+			}
+			heldD := append(append([][]P{}, setsA...), allSubsets(core)...)
+			listsD := append(append(listsOfLen(basis, 0), listsOfLen(basis, 1)...), listsOfLen(basis, 2)...)
+			if !familyD(heldD, listsD, "family D (lists of <= 2 entries) not finished") {
+				return
 			}
 			// family C: filter-field products (read-only single calls). Caller sets: every set of size <= 1 of the basis;
 			// quick adds every pair of READ permissions for the bucket/org/user filters, thorough every pair of the basis
@@ -1183,6 +1340,12 @@ func TestCheck(t *testing.T) {
 						c.Cap("family B not finished")
 						return
 					}
+				}
+			}
+			if c.Thorough() { // family D, lists of exactly 3 entries x held sets of size <= 1 of the basis and all subsets of the core basis
+				heldD3 := append(append([][]P{}, smallSubsets(basis, 1)...), allSubsets(core)...)
+				if !familyD(heldD3, listsOfLen(basis, 3), "family D (lists of 3 entries) not finished") {
+					return
 				}
 			}
 		},
